@@ -112,6 +112,16 @@ Proof.
   apply IH. intros Hin. apply H. right. exact Hin.
 Qed.
 
+Lemma NoDup_app_snoc_uid : forall (l : list N) (x : N), NoDup l -> ~ In x l -> NoDup (l ++ [x]).
+Proof.
+  induction l as [|a l IH]; intros x Hnd Hni; simpl.
+  - constructor; [intros []|constructor].
+  - inversion Hnd; subst. constructor.
+    + intros Hin. apply in_app_or in Hin. destruct Hin as [Hin|[E|[]]]; [contradiction|].
+      subst. apply Hni. left; reflexivity.
+    + apply IH; [assumption|]. intros Hin. apply Hni. right; exact Hin.
+Qed.
+
 (* "eventually": for all sufficiently large fuel *)
 Definition evl {A} (g : nat -> res A) (r : res A) : Prop := exists F, forall f, (F <= f)%nat -> g f = r.
 
@@ -259,8 +269,8 @@ Section ProgS.
     intros l x w kw stk top H. inversion H; subst.
     - destruct l; [|destruct l; discriminate]. simpl in *. inversion H0; subst. split; [reflexivity|].
       left. auto.
-    - apply app_inj_tail in H0. destruct H0; subst. split; [reflexivity|].
-      right. eauto.
+    - match goal with E : _ ++ [_] = _ ++ [_] |- _ => apply app_inj_tail in E; destruct E; subst end.
+      split; [reflexivity|]. right. do 3 eexists. split; [reflexivity|]. split; eassumption.
   Qed.
 
   Lemma chain_last_head : forall l x w kw stk top, chain (l ++ [x]) w kw stk top -> 0 <= f_head x.
@@ -293,6 +303,9 @@ Section ProgS.
 
   Definition first_uid (l : list fstate) (d : N) : N := match l with x :: _ => f_uid x | [] => d end.
 
+  Lemma first_uid_app : forall l m d, l <> [] -> first_uid (l ++ m) d = first_uid l d.
+  Proof. intros [|x l] m d H; [congruence|reflexivity]. Qed.
+
   Definition post_g (r : xres) (s : state) (fs : fstate) (res : res (state * fstate)) : Prop :=
     match r with
     | XEnd c' u' => exists h n', res = Ok (end_state s c' u' n', fs_head fs h) /\ h < 0 /\ (st_uid s <= n')%N
@@ -306,4 +319,609 @@ Section ProgS.
     | XExc => res = Exc
     | XFuel => False
     end.
+
+  Lemma wait_state_nil : forall s c u w u0,
+    (if actionable w then st_set_next (st_set_ctx s c u) (Some (elem_of_wait w)) (Some u0) (Qred (1 * 1))
+     else st_set_ctx s c u) = wait_state s c u (st_uid s) [] w u0.
+  Proof.
+    intros. unfold wait_state. rewrite app_nil_r. destruct (actionable w); destruct s; reflexivity.
+  Qed.
+
+  Lemma wait_state_push : forall s c u n l w u0 x,
+    st_push (wait_state s c u n l w u0) x = wait_state s c u n (l ++ [x]) w u0.
+  Proof.
+    intros. unfold wait_state, st_push, st_set_fss. destruct (actionable w); simpl; rewrite <- app_assoc; reflexivity.
+  Qed.
+
+  Lemma wait_state_next : forall s c u n l w u0, st_next s = None ->
+    st_next (wait_state s c u n l w u0) = if actionable w then Some (elem_of_wait w) else None.
+  Proof. intros. unfold wait_state. destruct (actionable w); simpl; auto. Qed.
+
+  Lemma wait_state_fss : forall s c u n l w u0, st_fss (wait_state s c u n l w u0) = st_fss s ++ l.
+  Proof. intros. unfold wait_state. destruct (actionable w); reflexivity. Qed.
+
+  Lemma wait_state_ctx : forall s c u n l w u0,
+    st_ctx (wait_state s c u n l w u0) = c /\ st_upd (wait_state s c u n l w u0) = u /\
+    st_uid (wait_state s c u n l w u0) = n.
+  Proof. intros. unfold wait_state. destruct (actionable w); auto. Qed.
+
+  (* the second _record_next_step of _call_subflow never changes anything *)
+  Lemma second_record_noop : forall s c u n l w u0 x b,
+    st_next s = None ->
+    flow_body (f_flow x) = Some b -> instr (code b) (f_head x) = Some (elem_of_wait w) -> wf_wait w ->
+    record_next_step (wait_state s c u n l w u0) x (cfg_of (f_flow x) b) 1 = Ok (wait_state s c u n l w u0).
+  Proof.
+    intros s c u n l w u0 x b Hn Hb Hi Hw.
+    pose proof (instr_lt _ _ _ Hi) as Hrg.
+    pose proof (instr_pyidx _ _ _ (proj1 Hrg) Hi) as Hpy.
+    unfold record_next_step, wait_state. destruct (actionable w) eqn:Ea; cbn [st_next st_prio].
+    - reflexivity.
+    - rewrite Hn. cbn [orb]. change (fc_elems (cfg_of (f_flow x) b)) with (code b). rewrite Hpy. cbn [of_opt bind].
+      rewrite (is_actionable_wait _ Hw), Ea. reflexivity.
+  Qed.
+
+  Lemma sws_gen : forall n c u blk k r,
+    exec (all_flows p) n c u blk k = r -> r <> XFuel ->
+    forall b pc lp s fs,
+      flow_body (f_flow fs) = Some b ->
+      code_at (code b) pc (compile_block (rel lp pc) blk) ->
+      wf_block (inl lp) blk = true ->
+      kmatch (code b) k (pc + bsize blk) lp ->
+      st_ctx s = c -> st_upd s = u -> st_next s = None ->
+      f_head fs = pc -> f_status fs = Active -> f_intby fs = None ->
+      exists res, post_g r s fs res /\ evl (fun f => sws o f cs s fs) res.
+  Proof.
+    induction n as [n IH] using lt_wf_ind.
+    intros c u blk k r Hr Hnf b pc lp s fs Hb Hcode Hwfb Hk Hc Hu Hn Hh Hst Hib.
+    destruct (exec_decomp _ _ _ _ _ _ _ Hr Hnf) as (m & Hm & Hal).
+    destruct (flow_body_wf _ _ Hb) as (Hwfbody & Hlen).
+    remember (lexec n c u blk k) as lr eqn:Elr. symmetry in Elr.
+    assert (Hlnf : lr <> LFuel) by (intros E; rewrite E in Hal; exact Hal).
+    destruct (lexec_slide (code b) n c u blk k lr pc lp Elr Hlnf Hcode Hwfb Hk Hlen) as (sr & Hpost & F & HF).
+    assert (Hun : forall f, sws o (S f) cs s fs =
+      match slide f (code b) pc c u with
+      | SFuel => Fuel | SErr => Exc | SNone => Exc
+      | SOk h c1 u1 =>
+          let s1 := st_set_ctx s c1 u1 in
+          let fs1 := fs_head fs h in
+          if h >=? 0 then
+            bind (of_opt (pyidx (code b) h)) (fun el =>
+            match el with
+            | LFlow name =>
+                let sub := new_fstate (st_uid s1) name 0 in
+                let s2 := st_bump_uid s1 in
+                let fs2 := fs_head fs1 (h + 1) in
+                bind (sws o f cs s2 sub) (fun r0 =>
+                let '(s3, sub') := r0 in
+                if f_head sub' <? 0 then sws o f cs s3 fs2
+                else
+                  let fs3 := fs_intby (fs_status fs2 Interrupted) (Some (f_uid sub')) in
+                  let s4 := st_push s3 sub' in
+                  bind (of_opt (find_config cs (f_flow sub'))) (fun scfg =>
+                  bind (if o_guard o && negb (status_eqb (f_status sub') Active) then Ok s4
+                        else record_next_step s4 sub' scfg 1) (fun s5 =>
+                  Ok (s5, fs3))))
+            | _ => bind (record_next_step s1 fs1 (cfg_of (f_flow fs) b) 1) (fun s2 => Ok (s2, fs1))
+            end)
+          else Ok (s1, fs1)
+      end).
+    { intros f. rewrite sws_S, (find_cfg _ _ Hb). cbn [of_opt bind]. rewrite Hh, Hc, Hu. reflexivity. }
+    clear Hr.
+    destruct lr as [w k' c' u'|name kk c' u'|c' u'| |]; cbn [after_local slide_post] in Hal, Hpost; try contradiction.
+    - (* blocks in this frame *)
+      subst r. destruct Hpost as (pw & lp' & Esr & Hi & Hw & Hk').
+      pose proof (instr_lt _ _ _ Hi) as Hrg.
+      pose proof (instr_pyidx _ _ _ (proj1 Hrg) Hi) as Hpy.
+      exists (Ok (wait_state s c' u' (st_uid s) [] w (f_uid fs), fs_head fs pw)). split.
+      + unfold post_g. exists [], (fs_head fs pw), (st_uid s). simpl. repeat split; auto; try lia; try constructor.
+        change (f_uid fs) with (f_uid (fs_head fs pw)). constructor.
+        unfold active_at. simpl. repeat split; auto. exists b, lp'. repeat split; auto.
+      + exists (S F). intros f Hf. destruct f as [|f]; [lia|]. rewrite Hun, (HF f) by lia. rewrite Esr. cbv zeta.
+        replace (pw >=? 0) with true by (symmetry; apply Z.geb_le; lia).
+        rewrite Hpy. cbn [of_opt bind].
+        assert (Hrec : record_next_step (st_set_ctx s c' u') (fs_head fs pw) (cfg_of (f_flow fs) b) 1
+                       = Ok (wait_state s c' u' (st_uid s) [] w (f_uid fs))).
+        { rewrite (record_next_step_fresh _ _ _ _ (elem_of_wait w)); [|exact Hn|exact Hpy].
+          rewrite (is_actionable_wait _ Hw). f_equal. apply wait_state_nil. }
+        destruct w; cbn [elem_of_wait] in *; rewrite Hrec; reflexivity.
+    - (* a call *)
+      destruct Hal as (rest & k' & Ekk & Er). subst kk.
+      destruct Hpost as (pw & lp' & rest' & k'' & Ekk & Esr & Hi & Hcrest & Hwrest & Hk'').
+      inversion Ekk; subst rest' k''. clear Ekk.
+      pose proof (instr_lt _ _ _ Hi) as Hrg.
+      pose proof (instr_pyidx _ _ _ (proj1 Hrg) Hi) as Hpy.
+      set (s1 := st_set_ctx s c' u') in *.
+      set (sub := new_fstate (st_uid s1) name 0).
+      set (s2 := st_bump_uid s1).
+      set (fs2 := fs_head (fs_head fs pw) (pw + 1)).
+      assert (Hun2 : forall f, (F <= f)%nat -> sws o (S f) cs s fs =
+                bind (sws o f cs s2 sub) (fun r0 =>
+                let '(s3, sub') := r0 in
+                if f_head sub' <? 0 then sws o f cs s3 fs2
+                else
+                  let fs3 := fs_intby (fs_status fs2 Interrupted) (Some (f_uid sub')) in
+                  let s4 := st_push s3 sub' in
+                  bind (of_opt (find_config cs (f_flow sub'))) (fun scfg =>
+                  bind (if o_guard o && negb (status_eqb (f_status sub') Active) then Ok s4
+                        else record_next_step s4 sub' scfg 1) (fun s5 =>
+                  Ok (s5, fs3))))).
+      { intros f Hf. rewrite Hun, (HF f) by lia. rewrite Esr. cbv zeta.
+        replace (pw >=? 0) with true by (symmetry; apply Z.geb_le; lia).
+        rewrite Hpy. reflexivity. }
+      change (lookup name (all_flows p)) with (flow_body name) in Er.
+      destruct (flow_body name) as [body|] eqn:Ebody.
+      2:{ (* unknown flow *)
+        subst r. exists Exc. split; [reflexivity|].
+        exists (S (S F)). intros f Hf. destruct f as [|[|f]]; try lia.
+        rewrite Hun2 by lia. rewrite sws_S. change (f_flow sub) with name.
+        rewrite (find_cfg_none _ Ebody). reflexivity. }
+      destruct (flow_body_wf _ _ Ebody) as (Hwfsub & Hlensub).
+      remember (exec (all_flows p) m c' u' body KDone) as r1 eqn:Er1. symmetry in Er1.
+      assert (Hr1nf : r1 <> XFuel) by (intros E; subst r1; rewrite E in Er; congruence).
+      assert (Hsubcode : code_at (code body) 0 (compile_block (rel None 0) body)) by apply code_at_whole.
+      assert (Hsubk : kmatch (code body) KDone (0 + bsize body) None).
+      { apply km_done. unfold code. rewrite compile_block_length. lia. }
+      destruct (IH m Hm c' u' body KDone r1 Er1 Hr1nf body 0 None s2 sub
+                   Ebody Hsubcode Hwfsub Hsubk eq_refl eq_refl Hn eq_refl eq_refl eq_refl)
+        as (res1 & Hpost1 & Hev1).
+      destruct r1 as [w kw stk1 c2 u2|c2 u2| |]; simpl in Hpost1; try contradiction.
+      + (* the callee blocks *)
+        subst r. destruct Hpost1 as (pushed1 & sub' & n2 & Eres1 & Hch1 & Hu1 & Hf1 & Hn2 & Hb1 & Hnd1).
+        pose proof (chain_last_head _ _ _ _ _ _ Hch1) as Hhd.
+        set (s3 := wait_state s2 c2 u2 n2 pushed1 w (first_uid (pushed1 ++ [sub']) 0%N)) in *.
+        set (fs3 := fs_intby (fs_status fs2 Interrupted) (Some (f_uid sub'))).
+        exists (Ok (wait_state s c2 u2 n2 (pushed1 ++ [sub']) w (first_uid ((pushed1 ++ [sub']) ++ [fs3]) 0%N), fs3)).
+        split.
+        * simpl. exists (pushed1 ++ [sub']), fs3, n2. split; [reflexivity|]. split; [|split; [reflexivity|split; [reflexivity|]]].
+          -- change (f_uid fs) with (f_uid fs3).
+             apply chain_snoc with (top := f_uid sub).
+             ++ exact Hch1.
+             ++ unfold interrupted_at, fs3. simpl. split; [reflexivity|]. split; [rewrite Hu1; reflexivity|].
+                exists b, lp'. split; [exact Hb|]. apply km_seq; assumption.
+          -- simpl in Hn2. split; [lia|]. split.
+             ++ apply Forall_app. split.
+                ** eapply Forall_impl; [|exact Hb1]. simpl. intros a Ha. lia.
+                ** constructor; [|constructor]. rewrite Hu1. simpl. lia.
+             ++ rewrite map_app. simpl. apply NoDup_app_snoc_uid; auto.
+                intros Hin. rewrite in_map_iff in Hin. destruct Hin as (y & Ey & Hy).
+                rewrite Forall_forall in Hb1. specialize (Hb1 _ Hy). rewrite Ey, Hu1 in Hb1. simpl in Hb1. lia.
+        * destruct Hev1 as (F1 & HF1). exists (S (Nat.max F F1)). intros f Hf. destruct f as [|f]; [lia|].
+          rewrite Hun2 by lia. rewrite (HF1 f) by lia. rewrite Eres1. cbn [bind]. cbv zeta.
+          replace (f_head sub' <? 0) with false by (symmetry; apply Z.ltb_ge; exact Hhd).
+          rewrite Hf1. change (f_flow sub) with name. rewrite (find_cfg _ _ Ebody). cbn [of_opt bind].
+          fold s3. rewrite Hguard. cbn [andb].
+          assert (Hnoop : (if negb (status_eqb (f_status sub') Active) then Ok (st_push s3 sub')
+                           else record_next_step (st_push s3 sub') sub' (cfg_of name body) 1)
+                          = Ok (st_push s3 sub')).
+          { destruct (chain_last _ _ _ _ _ _ Hch1) as (_ & [(E1 & E2 & Ha)|(stk0 & ki & top0 & _ & _ & Hi3)]).
+            - destruct Ha as (Hs' & _ & b' & lp2 & Hb' & Hi2 & Hw2 & _). rewrite Hs'. cbn [status_eqb negb].
+              unfold s3. rewrite wait_state_push.
+              rewrite Hf1 in Hb'. change (f_flow sub) with name in Hb'. rewrite Ebody in Hb'. inversion Hb'; subst b'.
+              replace (cfg_of name body) with (cfg_of (f_flow sub') body) by (rewrite Hf1; reflexivity).
+              apply second_record_noop; auto. rewrite Hf1. exact Ebody.
+            - destruct Hi3 as (Hs' & _). rewrite Hs'. reflexivity. }
+          rewrite Hnoop. cbn [bind]. unfold s3. rewrite wait_state_push.
+          rewrite (first_uid_app (pushed1 ++ [sub']) [fs3]) by (destruct pushed1; discriminate). reflexivity.
+      + (* the callee ran to its end: continue after the call *)
+        destruct Hpost1 as (h1 & n2 & Eres1 & Hneg1 & Hn2).
+        set (s3 := end_state s2 c2 u2 n2) in *.
+        assert (Hrnf : r <> XFuel) by exact Hnf.
+        assert (Hk2 : kmatch (code b) k' (pw + 1 + bsize rest) lp') by exact Hk''.
+        destruct (IH m Hm c2 u2 rest k' r (eq_sym Er) Hrnf b (pw + 1) lp' s3 fs2
+                     Hb Hcrest Hwrest Hk2 eq_refl eq_refl Hn eq_refl Hst Hib)
+          as (res2 & Hpost2 & Hev2).
+        exists res2. split.
+        * destruct r as [w kw stk c3 u3|c3 u3| |]; simpl in Hpost2 |- *; try contradiction; auto.
+          -- destruct Hpost2 as (pushed & fs' & n3 & Eres2 & Hch & Hu' & Hf' & Hn3 & Hbd & Hnd).
+             exists pushed, fs', n3. simpl in Hn2, Hn3. repeat split; auto; try lia.
+             eapply Forall_impl; [|exact Hbd]. simpl. intros a Ha. lia.
+          -- destruct Hpost2 as (h & n3 & Eres2 & Hneg & Hn3). exists h, n3. simpl in Hn2, Hn3. repeat split; auto. lia.
+        * destruct Hev1 as (F1 & HF1). destruct Hev2 as (F2 & HF2).
+          exists (S (Nat.max F (Nat.max F1 F2))). intros f Hf. destruct f as [|f]; [lia|].
+          rewrite Hun2 by lia. rewrite (HF1 f) by lia. rewrite Eres1. cbn [bind]. cbv zeta.
+          replace (f_head (fs_head sub h1) <? 0) with true by (symmetry; apply Z.ltb_lt; simpl; lia).
+          apply HF2. lia.
+      + (* exception in the callee *)
+        subst r res1. exists Exc. split; [reflexivity|].
+        destruct Hev1 as (F1 & HF1). exists (S (Nat.max F F1)). intros f Hf. destruct f as [|f]; [lia|].
+        rewrite Hun2 by lia. rewrite (HF1 f) by lia. reflexivity.
+    - (* the body ends *)
+      subst r. destruct Hpost as (h & Esr & Hneg).
+      exists (Ok (end_state s c' u' (st_uid s), fs_head fs h)). split.
+      + simpl. exists h, (st_uid s). repeat split; auto. lia.
+      + exists (S F). intros f Hf. destruct f as [|f]; [lia|]. rewrite Hun, (HF f) by lia. rewrite Esr. cbv zeta.
+        replace (h >=? 0) with false by (symmetry; rewrite Z.geb_leb; apply Z.leb_gt; lia).
+        unfold end_state. destruct s; reflexivity.
+    - (* exception *)
+      subst r sr. exists Exc. split; [reflexivity|].
+      exists (S F). intros f Hf. destruct f as [|f]; [lia|]. rewrite Hun, (HF f) by lia. reflexivity.
+  Qed.
+
+  (* ---------------------------------------------------------------- the resume loop *)
+
+  (* the verdict of the resume loop on an interrupted flow state *)
+  Definition verdict (l : list fstate) (x : fstate) : bool * bool :=
+    match f_intby x with
+    | None => (true, false)
+    | Some u =>
+        match find_uid l u with
+        | Some g => (status_eqb (f_status g) Completed, status_eqb (f_status g) Aborted)
+        | None => (false, false)
+        end
+    end.
+
+  (* a flow state the resume loop leaves alone *)
+  Definition quiet_fs (l : list fstate) (x : fstate) : Prop :=
+    status_eqb (f_status x) Interrupted = false \/ verdict l x = (false, false).
+
+  (* what the loop does to a flow state it picks up *)
+  Definition process (f : nat) (s : state) (j : nat) (x : fstate) : res state :=
+    let '(sr, sa) := verdict (st_fss s) x in
+    if sr then
+      let fs1 := fs_intby (fs_status x Active) None in
+      bind (sws o f cs (st_set_fss s (list_set (st_fss s) j fs1)) fs1) (fun r =>
+      let '(s2, fs2) := r in
+      Ok (st_set_fss s2 (list_set (st_fss s2) j (if f_head fs2 <? 0 then fs_status fs2 Completed else fs2))))
+    else if sa then Ok (st_set_fss s (list_set (st_fss s) j (fs_intby (fs_status x Aborted) None)))
+    else Ok s.
+
+  Lemma resume_pass_quiet_step : forall f s i ch x,
+    nth_error (st_fss s) i = Some x -> quiet_fs (st_fss s) x ->
+    resume_pass o (S f) cs s i ch = resume_pass o f cs s (S i) ch.
+  Proof.
+    intros f s i ch x Hn Hq. rewrite resume_pass_S, Hn.
+    destruct Hq as [Hq|Hq].
+    - rewrite Hq. reflexivity.
+    - destruct (status_eqb (f_status x) Interrupted); [|reflexivity].
+      unfold verdict in Hq. rewrite Hq. reflexivity.
+  Qed.
+
+  Lemma resume_pass_hit_step : forall f s i ch x,
+    nth_error (st_fss s) i = Some x -> status_eqb (f_status x) Interrupted = true ->
+    verdict (st_fss s) x <> (false, false) ->
+    resume_pass o (S f) cs s i ch = bind (process f s i x) (fun s2 => resume_pass o f cs s2 (S i) true).
+  Proof.
+    intros f s i ch x Hn Hi Hv. rewrite resume_pass_S, Hn, Hi. unfold process.
+    unfold verdict in *. destruct (f_intby x) as [u|].
+    - destruct (find_uid (st_fss s) u) as [g|]; [|congruence].
+      destruct (status_eqb (f_status g) Completed); cbv iota beta.
+      + destruct (sws o f cs _ _) as [[s2 fs2]| |]; reflexivity.
+      + destruct (status_eqb (f_status g) Aborted); [reflexivity|congruence].
+    - cbv iota beta. destruct (sws o f cs _ _) as [[s2 fs2]| |]; reflexivity.
+  Qed.
+
+  (* all flow states from index i on are quiet *)
+  Definition quiet_from (s : state) (i : nat) : Prop :=
+    forall j x, (i <= j)%nat -> nth_error (st_fss s) j = Some x -> quiet_fs (st_fss s) x.
+
+  Lemma resume_pass_quiet : forall s n i f ch,
+    quiet_from s i -> (List.length (st_fss s) - i <= n)%nat -> (n < f)%nat ->
+    resume_pass o f cs s i ch = Ok (s, ch).
+  Proof.
+    intros s. induction n as [|n IH]; intros i f ch Hq Hlen Hf.
+    - destruct f as [|f]; [lia|]. rewrite resume_pass_S.
+      destruct (nth_error (st_fss s) i) eqn:E; [|reflexivity].
+      assert (i < List.length (st_fss s))%nat by (apply nth_error_Some; congruence). lia.
+    - destruct f as [|f]; [lia|].
+      destruct (nth_error (st_fss s) i) as [x|] eqn:E.
+      + rewrite (resume_pass_quiet_step f s i ch x E (Hq i x (le_n _) E)).
+        apply IH; [|lia|lia]. intros j y Hj. apply Hq. lia.
+      + rewrite resume_pass_S, E. reflexivity.
+  Qed.
+
+  (* skipping the quiet flow states between i and j *)
+  Lemma resume_pass_skip : forall s d i f ch,
+    (forall j x, (i <= j < i + d)%nat -> nth_error (st_fss s) j = Some x -> quiet_fs (st_fss s) x) ->
+    (i + d <= List.length (st_fss s))%nat ->
+    resume_pass o (d + f) cs s i ch = resume_pass o f cs s (i + d) ch.
+  Proof.
+    intros s. induction d as [|d IH]; intros i f ch Hq Hlen.
+    - simpl. replace (i + 0)%nat with i by lia. reflexivity.
+    - destruct (nth_error (st_fss s) i) as [x|] eqn:E.
+      2:{ apply nth_error_None in E. lia. }
+      change (S d + f)%nat with (S (d + f)).
+      rewrite (resume_pass_quiet_step (d + f) s i ch x E); [|apply (Hq i x); [lia|exact E]].
+      rewrite IH; [f_equal; lia| |lia]. intros j y Hj. apply Hq. lia.
+  Qed.
+
+  (* the rest of the loop from position (i, ch) of a pass *)
+  Definition finish (f1 f2 : nat) (s : state) (i : nat) (ch : bool) : res state :=
+    bind (resume_pass o f1 cs s i ch) (fun r =>
+    let '(s', ch') := r in if ch' then resume_loop o f2 cs s' else Ok s').
+
+  Definition loops_to (s : state) (i : nat) (ch : bool) (r : res state) : Prop :=
+    exists F, forall f1 f2, (F <= f1)%nat -> (F <= f2)%nat -> finish f1 f2 s i ch = r.
+
+  Lemma resume_loop_finish : forall f s, resume_loop o (S f) cs s = finish (S f) f s 0 false.
+  Proof. intros. rewrite resume_loop_S. reflexivity. Qed.
+
+  Lemma loops_to_loop : forall s r, loops_to s 0 false r -> evl (fun f => resume_loop o f cs s) r.
+  Proof.
+    intros s r (F & H). exists (S F). intros f Hf. destruct f as [|f]; [lia|].
+    rewrite resume_loop_finish. apply H; lia.
+  Qed.
+
+  Lemma loops_quiet : forall s i ch, quiet_from s 0 -> loops_to s i ch (Ok s).
+  Proof.
+    intros s i ch Hq. exists (List.length (st_fss s) + 2)%nat. intros f1 f2 H1 H2. unfold finish.
+    rewrite (resume_pass_quiet s (List.length (st_fss s)) i f1 ch); [|intros j x _; apply Hq; lia|lia|lia].
+    cbn [bind]. destruct ch; [|reflexivity].
+    destruct f2 as [|f2]; [lia|]. rewrite resume_loop_finish. unfold finish.
+    rewrite (resume_pass_quiet s (List.length (st_fss s)) 0 (S f2) false); [reflexivity|exact Hq|lia|lia].
+  Qed.
+
+  (* the loop picks up the only flow state that is not quiet, wherever it sits *)
+  Lemma loops_step : forall s j x r i ch,
+    nth_error (st_fss s) j = Some x ->
+    status_eqb (f_status x) Interrupted = true -> verdict (st_fss s) x <> (false, false) ->
+    (forall j' y, j' <> j -> nth_error (st_fss s) j' = Some y -> quiet_fs (st_fss s) y) ->
+    ((j < i)%nat -> ch = true) ->
+    (exists F, forall f1 f2, (F <= f1)%nat -> (F <= f2)%nat ->
+       bind (process f1 s j x) (fun s2 => finish f1 f2 s2 (S j) true) = r) ->
+    loops_to s i ch r.
+  Proof.
+    intros s j x r i ch Hn Hi Hv Hq Hch (F & HF).
+    assert (Hjl : (j < List.length (st_fss s))%nat) by (apply nth_error_Some; congruence).
+    exists (F + List.length (st_fss s) + 3)%nat. intros f1 f2 H1 H2.
+    assert (Hfrom0 : forall g1 g2, (F + j + 1 <= g1)%nat -> (F <= g2)%nat -> finish g1 g2 s 0 false = r).
+    { intros g1 g2 G1 G2. unfold finish.
+      replace g1 with (j + (g1 - j))%nat by lia.
+      rewrite (resume_pass_skip s j 0 (g1 - j) false); [|intros j' y Hj'; apply Hq; lia|lia].
+      simpl plus. destruct (g1 - j)%nat as [|g] eqn:Eg; [lia|].
+      rewrite (resume_pass_hit_step g s j false x Hn Hi Hv).
+      specialize (HF g g2). unfold finish in HF.
+      destruct (process g s j x) as [s2| |] eqn:Ep; cbn [bind] in *; apply HF; lia. }
+    destruct (Nat.le_gt_cases i j) as [Hij|Hij].
+    - (* the pass has not reached j yet *)
+      unfold finish. replace f1 with ((j - i) + (f1 - (j - i)))%nat by lia.
+      rewrite (resume_pass_skip s (j - i) i (f1 - (j - i)) ch); [|intros j' y Hj'; apply Hq; lia|lia].
+      replace (i + (j - i))%nat with j by lia.
+      destruct (f1 - (j - i))%nat as [|g] eqn:Eg; [lia|].
+      rewrite (resume_pass_hit_step g s j ch x Hn Hi Hv).
+      specialize (HF g f2). unfold finish in HF.
+      destruct (process g s j x) as [s2| |] eqn:Ep; cbn [bind] in *; apply HF; lia.
+    - (* the pass is already beyond j: it ends, and the next pass finds x *)
+      rewrite (Hch Hij). unfold finish.
+      rewrite (resume_pass_quiet s (List.length (st_fss s)) i f1 true); [|intros j' y Hj'; apply Hq; lia|lia|lia].
+      cbn [bind]. destruct f2 as [|f2]; [lia|]. rewrite resume_loop_finish. apply Hfrom0; lia.
+  Qed.
+
+  (* ---------------------------------------------------------------- stacks, bottom-up view *)
+
+  (* itail a tl ks: the callers above a flow state with uid a, innermost first *)
+  Inductive itail : N -> list fstate -> list kont -> Prop :=
+  | it_nil : forall a, itail a [] []
+  | it_cons : forall a t k tl ks, interrupted_at t k a -> itail (f_uid t) tl ks -> itail a (t :: tl) (k :: ks).
+
+  Fixpoint last_uid (a : N) (tl : list fstate) : N :=
+    match tl with [] => a | t :: tl' => last_uid (f_uid t) tl' end.
+
+  Lemma itail_snoc : forall a tl ks x k,
+    itail a tl ks -> interrupted_at x k (last_uid a tl) -> itail a (tl ++ [x]) (ks ++ [k]).
+  Proof.
+    intros a tl ks x k H. induction H; intros Hx; simpl in *.
+    - constructor; [exact Hx|constructor].
+    - constructor; [assumption|]. apply IHitail. exact Hx.
+  Qed.
+
+  Lemma last_uid_snoc : forall a tl x, last_uid a (tl ++ [x]) = f_uid x.
+  Proof. intros a tl. revert a. induction tl; intros a0 x; simpl; auto. Qed.
+
+  Lemma chain_split : forall l w kw stk top,
+    chain l w kw stk top ->
+    exists f0 tl, l = f0 :: tl /\ active_at f0 w kw /\ itail (f_uid f0) tl stk /\ top = last_uid (f_uid f0) tl.
+  Proof.
+    induction 1.
+    - exists f0, []. split; [reflexivity|]. split; [exact H|]. split; [constructor|reflexivity].
+    - destruct IHchain as (f0 & tl & El & Ha & Hi & Et). subst l top.
+      exists f0, (tl ++ [fi]). split; [reflexivity|]. split; [exact Ha|]. split.
+      + apply itail_snoc; assumption.
+      + rewrite last_uid_snoc. reflexivity.
+  Qed.
+
+  Lemma chain_app_itail : forall tl ks l w kw stk top,
+    chain l w kw stk top -> itail top tl ks ->
+    exists top', chain (l ++ tl) w kw (stk ++ ks) top'.
+  Proof.
+    induction tl as [|t tl IH]; intros ks l w kw stk top Hc Hi; inversion Hi; subst.
+    - exists top. rewrite !app_nil_r. exact Hc.
+    - destruct (IH ks0 (l ++ [t]) w kw (stk ++ [k]) (f_uid t)) as (top' & Hc').
+      + apply chain_snoc with (top := top); assumption.
+      + assumption.
+      + exists top'. rewrite <- !app_assoc in Hc'. exact Hc'.
+  Qed.
+
+  Lemma itail_statuses : forall a tl ks, itail a tl ks -> Forall (fun t => f_status t = Interrupted) tl.
+  Proof. induction 1; constructor; auto. destruct H as (Hs & _). exact Hs. Qed.
+
+  Lemma itail_flows : forall a tl ks, itail a tl ks -> Forall (fun t => exists b, flow_body (f_flow t) = Some b) tl.
+  Proof. induction 1; constructor; auto. destruct H as (_ & _ & b & lp & Hb & _). eauto. Qed.
+
+  (* every caller is interrupted by a flow state that is the stack's next-lower one *)
+  Lemma itail_links : forall a tl ks, itail a tl ks ->
+    forall t, In t tl -> exists u, f_intby t = Some u /\ (u = a \/ exists t', In t' tl /\ f_uid t' = u).
+  Proof.
+    induction 1; intros x Hin; [contradiction|]. destruct Hin as [E|Hin].
+    - subst x. destruct H as (_ & Hib & _). exists a. split; [exact Hib|left; reflexivity].
+    - destruct (IHitail _ Hin) as (u & Hu & [E|(t' & Ht' & Eu)]).
+      + exists u. split; [exact Hu|]. right. exists t. split; [left; reflexivity|auto].
+      + exists u. split; [exact Hu|]. right. exists t'. split; [right; exact Ht'|exact Eu].
+  Qed.
+
+  (* ---------------------------------------------------------------- unwinding an aborted stack *)
+
+  Definition same_meta (s s' : state) : Prop :=
+    st_ctx s' = st_ctx s /\ st_upd s' = st_upd s /\ st_next s' = st_next s /\ st_by s' = st_by s /\
+    st_prio s' = st_prio s /\ st_uid s' = st_uid s.
+
+  Lemma nth_error_uid_inj : forall l j j' (x y : fstate),
+    NoDup (map f_uid l) -> nth_error l j = Some x -> nth_error l j' = Some y -> f_uid x = f_uid y -> j = j'.
+  Proof.
+    intros l j j' x y Hnd Hx Hy E.
+    assert (Hjx : nth_error (map f_uid l) j = Some (f_uid x)) by (rewrite nth_error_map, Hx; reflexivity).
+    assert (Hjy : nth_error (map f_uid l) j' = Some (f_uid x)) by (rewrite nth_error_map, Hy, E; reflexivity).
+    rewrite NoDup_nth_error in Hnd. apply Hnd; [|congruence].
+    apply nth_error_Some. congruence.
+  Qed.
+
+  (* the callers other than the innermost one wait on a flow state that is itself interrupted *)
+  Lemma tail_others_quiet : forall l a t k tl ks y,
+    NoDup (map f_uid l) ->
+    itail a (t :: tl) (k :: ks) ->
+    (forall x, In x (t :: tl) -> In x l) ->
+    In y tl -> quiet_fs l y.
+  Proof.
+    intros l a t k tl ks y Hnd Hit Hin Hy. right.
+    inversion Hit; subst.
+    match goal with H : itail (f_uid t) tl _ |- _ => pose proof (itail_links _ _ _ H y Hy) as Hl end.
+    destruct Hl as (u & Hu & Hcase).
+    assert (Ht' : exists t', In t' (t :: tl) /\ f_uid t' = u).
+    { destruct Hcase as [E|(t' & Ht' & Eu)]; [exists t; split; [left; reflexivity|auto]|exists t'; split; [right; exact Ht'|exact Eu]]. }
+    destruct Ht' as (t' & Ht' & Eu).
+    unfold verdict. rewrite Hu, <- Eu, (find_uid_in l t' Hnd (Hin _ Ht')).
+    pose proof (itail_statuses _ _ _ Hit) as Hst. rewrite Forall_forall in Hst. rewrite (Hst _ Ht'). reflexivity.
+  Qed.
+
+  Lemma in_list_set_same : forall {A} (l : list A) j a, (j < List.length l)%nat -> In a (list_set l j a).
+  Proof.
+    intros A l j a H. eapply nth_error_In. apply list_set_nth_same. exact H.
+  Qed.
+
+  Lemma in_list_set_other : forall {A} (l : list A) j a x i, i <> j -> nth_error l i = Some x -> In x (list_set l j a).
+  Proof.
+    intros A l j a x i Hne Hn. apply (nth_error_In _ i). rewrite list_set_nth_other by auto. exact Hn.
+  Qed.
+
+  Lemma abort_unwind : forall tl ks a s i ch,
+    NoDup (map f_uid (st_fss s)) ->
+    (exists A, In A (st_fss s) /\ f_uid A = a /\ f_status A = Aborted) ->
+    itail a tl ks ->
+    (forall t, In t tl -> In t (st_fss s)) ->
+    (forall x, In x (st_fss s) -> dead x \/ In x tl) ->
+    NoDup (map f_uid tl) -> ~ In a (map f_uid tl) ->
+    (i = 0%nat \/ ch = true) ->
+    exists s', loops_to s i ch (Ok s') /\ same_meta s s' /\
+               map f_uid (st_fss s') = map f_uid (st_fss s) /\
+               map f_flow (st_fss s') = map f_flow (st_fss s) /\
+               Forall dead (st_fss s').
+  Proof.
+    induction tl as [|t tl IH]; intros ks a s i ch Hnd HA Hit Hin Hothers Hndt Hna Hich.
+    - exists s. split; [|split; [|split; [|split]]].
+      + apply loops_quiet. intros j x _ Hx. left.
+        destruct (Hothers x (nth_error_In _ _ Hx)) as [[E|E]|[]]; rewrite E; reflexivity.
+      + unfold same_meta. auto 10.
+      + reflexivity.
+      + reflexivity.
+      + apply Forall_forall. intros x Hx. destruct (Hothers x Hx) as [Hd|[]]. exact Hd.
+    - inversion Hit as [|? ? ? ? ks0 Hint Hit']; subst.
+      destruct HA as (A & HAin & HAu & HAs).
+      destruct Hint as (Hts & Htib & Htb).
+      destruct (In_nth_error _ _ (Hin t (or_introl eq_refl))) as (j & Hj).
+      assert (Hjl : (j < List.length (st_fss s))%nat) by (apply nth_error_Some; congruence).
+      assert (Hv : verdict (st_fss s) t = (false, true)).
+      { unfold verdict. rewrite Htib, <- HAu, (find_uid_in _ A Hnd HAin), HAs. reflexivity. }
+      set (t' := fs_intby (fs_status t Aborted) None).
+      set (s2 := st_set_fss s (list_set (st_fss s) j t')).
+      assert (Hmap2 : map f_uid (st_fss s2) = map f_uid (st_fss s)).
+      { simpl. apply list_set_map; [exact Hjl|]. intros x Hx. rewrite Hj in Hx. inversion Hx; subst. reflexivity. }
+      assert (Hflow2 : map f_flow (st_fss s2) = map f_flow (st_fss s)).
+      { simpl. apply list_set_map; [exact Hjl|]. intros x Hx. rewrite Hj in Hx. inversion Hx; subst. reflexivity. }
+      inversion Hndt as [|? ? Htn Hndt']; subst.
+      (* the rest of the stack, in the state where t is aborted *)
+      destruct (IH ks0 (f_uid t) s2 (S j) true) as (s' & Hloop & Hmeta & Hmu & Hmf & Hdead).
+      + rewrite Hmap2. exact Hnd.
+      + exists t'. split; [apply in_list_set_same; exact Hjl|]. split; reflexivity.
+      + exact Hit'.
+      + intros x Hx. destruct (In_nth_error _ _ (Hin x (or_intror Hx))) as (jx & Hjx).
+        apply (in_list_set_other _ j t' x jx); [|exact Hjx].
+        intros E. subst jx. rewrite Hj in Hjx. inversion Hjx; subst x.
+        apply Htn. apply in_map. exact Hx.
+      + intros x Hx. simpl in Hx. destruct (list_set_in _ _ _ _ Hx) as [E|(jx & Hne & Hjx)].
+        * subst x. left. right. reflexivity.
+        * destruct (Hothers x (nth_error_In _ _ Hjx)) as [Hd|[E|Hx']]; [left; exact Hd| |right; exact Hx'].
+          subst x. exfalso. apply Hne. apply (nth_error_uid_inj (st_fss s) jx j t t Hnd Hjx Hj eq_refl).
+      + exact Hndt'.
+      + exact Htn.
+      + right; reflexivity.
+      + exists s'. split; [|split; [|split; [|split]]].
+        * apply (loops_step s j t (Ok s') i ch Hj).
+          -- rewrite Hts. reflexivity.
+          -- rewrite Hv. congruence.
+          -- intros j' y Hne Hy.
+             destruct (Hothers y (nth_error_In _ _ Hy)) as [[E|E]|[E|Hy']].
+             ++ left. rewrite E. reflexivity.
+             ++ left. rewrite E. reflexivity.
+             ++ subst y. exfalso. apply Hne. apply (nth_error_uid_inj (st_fss s) j' j t t Hnd Hy Hj eq_refl).
+             ++ apply (tail_others_quiet (st_fss s) (f_uid A) t k tl ks0 y Hnd Hit Hin Hy').
+          -- intros Hlt. destruct Hich as [E|E]; [lia|exact E].
+          -- destruct Hloop as (F & HF). exists F. intros f1 f2 H1 H2.
+             unfold process. rewrite Hv. cbn [bind]. apply HF; assumption.
+        * destruct Hmeta as (M1 & M2 & M3 & M4 & M5 & M6). unfold same_meta. simpl in *. auto 10.
+        * rewrite Hmu. exact Hmap2.
+        * rewrite Hmf. exact Hflow2.
+        * exact Hdead.
+  Qed.
+
+  (* ---------------------------------------------------------------- a stack that waits *)
+
+  (* the flow states of list L form a stack waiting on w (plus dead ones) *)
+  Definition stack_in (L : list fstate) (w : wait) (kw : kont) (stk : list kont) : Prop :=
+    exists f0 tl, active_at f0 w kw /\ itail (f_uid f0) tl stk /\
+                  (forall x, In x (f0 :: tl) -> In x L) /\
+                  (forall x, In x L -> dead x \/ In x (f0 :: tl)) /\
+                  NoDup (map f_uid (f0 :: tl)).
+
+  Lemma dead_not_interrupted : forall x, dead x -> status_eqb (f_status x) Interrupted = false.
+  Proof. intros x [E|E]; rewrite E; reflexivity. Qed.
+
+  Lemma stack_quiet : forall L w kw stk,
+    NoDup (map f_uid L) -> stack_in L w kw stk -> forall x, In x L -> quiet_fs L x.
+  Proof.
+    intros L w kw stk Hnd (f0 & tl & Ha & Hit & Hsub & Hsup & Hndl) x Hx.
+    destruct (Hsup x Hx) as [Hd|[E|Hin]].
+    - left. apply dead_not_interrupted. exact Hd.
+    - subst x. left. destruct Ha as (Hs & _). rewrite Hs. reflexivity.
+    - right. destruct (itail_links _ _ _ Hit x Hin) as (u & Hu & Hcase).
+      assert (Ht' : exists t', In t' (f0 :: tl) /\ f_uid t' = u /\ status_eqb (f_status t') Completed = false /\
+                               status_eqb (f_status t') Aborted = false).
+      { destruct Hcase as [E|(t' & Ht' & Eu)].
+        - exists f0. split; [left; reflexivity|]. split; [auto|]. destruct Ha as (Hs & _). rewrite Hs. split; reflexivity.
+        - exists t'. split; [right; exact Ht'|]. split; [exact Eu|].
+          pose proof (itail_statuses _ _ _ Hit) as Hst. rewrite Forall_forall in Hst. rewrite (Hst _ Ht'). split; reflexivity. }
+      destruct Ht' as (t' & Ht' & Eu & Hc & Hab).
+      unfold verdict. rewrite Hu, <- Eu, (find_uid_in L t' Hnd (Hsub _ Ht')), Hc, Hab. reflexivity.
+  Qed.
+
+  Lemma chain_flows : forall l w kw stk top, chain l w kw stk top ->
+    Forall (fun t => exists b, flow_body (f_flow t) = Some b) l.
+  Proof.
+    induction 1.
+    - constructor; [|constructor]. destruct H as (_ & _ & b & lp & Hb & _). eauto.
+    - apply Forall_app. split; [exact IHchain|]. constructor; [|constructor].
+      destruct H0 as (_ & _ & b & lp & Hb & _). eauto.
+  Qed.
+
+  (* gluing the new top of the stack (what sws returned) onto the callers that were already there *)
+  Lemma stack_glue : forall L pushed fs' w kw stk1 tl ks,
+    chain (pushed ++ [fs']) w kw stk1 (f_uid fs') -> itail (f_uid fs') tl ks ->
+    (forall x, In x L -> dead x \/ In x pushed \/ x = fs' \/ In x tl) ->
+    (forall x, In x pushed \/ x = fs' \/ In x tl -> In x L) ->
+    NoDup (map f_uid (pushed ++ fs' :: tl)) ->
+    stack_in L w kw (stk1 ++ ks).
+  Proof.
+    intros L pushed fs' w kw stk1 tl ks Hch Hit Hsup Hsub Hnd.
+    destruct (chain_app_itail _ _ _ _ _ _ _ Hch Hit) as (top' & Hch').
+    destruct (chain_split _ _ _ _ _ Hch') as (f0 & tl0 & El & Ha & Hit0 & _).
+    exists f0, tl0. split; [exact Ha|]. split; [exact Hit0|].
+    assert (Heq : f0 :: tl0 = pushed ++ fs' :: tl) by (rewrite <- El, <- app_assoc; reflexivity).
+    rewrite Heq. split; [|split; [|exact Hnd]].
+    - intros x Hx. apply Hsub. apply in_app_or in Hx. destruct Hx as [Hx|[E|Hx]]; auto.
+    - intros x Hx. destruct (Hsup x Hx) as [Hd|[Hp|[E|Ht]]]; [left; exact Hd| | |]; right; apply in_or_app.
+      + left; exact Hp.
+      + right; left; auto.
+      + right; right; exact Ht.
+  Qed.
+
+  Lemma list_set_twice : forall {A} (l : list A) j a b, list_set (list_set l j a) j b = list_set l j b.
+  Proof. induction l; intros [|j] x y; simpl; auto. f_equal. apply IHl. Qed.
 End ProgS.
